@@ -14,6 +14,7 @@ def check_defined(rep, repo, rule, roots, label):
     if key not in _cache:
         _cache[key] = (Effects(repo), lints.attribute_definitions(repo))
     E, defs = _cache[key]
+    lints._current_repo[0] = repo
     roots = [r for r in roots if r is not None]
     slice_ = sorted(E.reachable(roots), key=lambda f: f.where)
     n_bad = 0
@@ -27,6 +28,15 @@ def check_defined(rep, repo, rule, roots, label):
             rep.fail(rule, f.where, '%s: a flag has a value on every path to its test' % label,
                      got='%s is only ever assigned constants under a condition; at line %d it holds one of them or nothing at all (UnboundLocalError when the condition never held)' % (name, line),
                      want='a default assignment in front of the conditional ones', construct='flag %s without default in %s' % (name, f.qualname), loc='%s:%d' % (f.relpath, line))
+        for callee, line, txt in lints.crossed_arguments(f, E.calls.get(f, [])):
+            n_bad += 1
+            rep.fail(rule, f.where, '%s: arguments are passed in the order of the parameters they are named after' % label, got=txt,
+                     want='the two arguments exchanged', construct='arguments crossed in the call of %s from %s' % (callee, f.qualname), loc='%s:%d' % (f.relpath, line))
+        for callee, line in lints.procedure_results_used(f, E.calls.get(f, [])):
+            n_bad += 1
+            rep.fail(rule, f.where, '%s: a call whose value is used returns one' % label,
+                     got='the result of %s(...) is used at line %d, but %s contains no `return <value>`: the value is None' % (callee, line, callee),
+                     want='a return statement in %s' % callee, construct='%s returns nothing, result used in %s' % (callee, f.qualname), loc='%s:%d' % (f.relpath, line))
         for cls, attr, line in lints.never_defined_attributes(repo, f, defs):
             n_bad += 1
             rep.fail(rule, f.where, '%s: every attribute that is read is defined somewhere for its class' % label,
